@@ -2,8 +2,9 @@
 (* Pipeline V for C15: a history recorded from the real AdaptiveHuffmanTree (314 symbols, 16-bit counters)  *)
 (* is replayed against Huffman!Update.  Events:                                                             *)
 (*   {"e":"Init"}                                 a fresh tree                                               *)
-(*   {"e":"Upd","x":s,"ok":b,"path":[bits]}      UpdateCodeCount(s); ok = no exception; path = root-to-leaf  *)
-(*                                                branch bits of s in the real tree after the call            *)
+(*   {"e":"Upd","x":s,"ok":b,"path":[bits],"enc":[bits]}   UpdateCodeCount(s); ok = no exception; path = root-to-leaf  *)
+(*                                                branch bits of s in the real tree after the call; enc = the bit *)
+(*                                                string the real encoder reports for s, in decoding order        *)
 (*   {"e":"Table","paths":[[bits],...]}           the paths of all symbols (logged every few hundred steps)   *)
 EXTENDS Huffman, TLC, Json, IOUtils
 Log == ndJsonDeserialize(IOEnv.TRACE)
@@ -14,10 +15,10 @@ Init == l = 1 /\ tree = InitTree
 EvInit == Ev.e \in {"Init", "Reset"} /\ tree' = InitTree
 EvUpd == /\ Ev.e = "Upd"
          /\ IF CanUpdate(tree, Ev.x)
-            THEN Ev.ok = TRUE /\ tree' = Update(tree, Ev.x) /\ Ev.path = EncodePath(tree', Ev.x)
-            ELSE Ev.ok = FALSE /\ tree' = tree /\ (Ev.x \in Syms => Ev.path = EncodePath(tree, Ev.x))
+            THEN Ev.ok = TRUE /\ tree' = Update(tree, Ev.x) /\ Ev.path = EncodePath(tree', Ev.x) /\ Ev.enc = Ev.path
+            ELSE Ev.ok = FALSE /\ tree' = tree /\ (Ev.x \in Syms => Ev.path = EncodePath(tree, Ev.x) /\ Ev.enc = Ev.path)
 EvTable == /\ Ev.e = "Table" /\ tree' = tree
-           /\ \A s \in Syms : Ev.paths[s + 1] = EncodePath(tree, s)
+           /\ \A s \in Syms : Ev.paths[s + 1] = EncodePath(tree, s) /\ Ev.enc[s + 1] = Ev.paths[s + 1]
 Next == l <= Len(Log) /\ l' = l + 1 /\ (EvInit \/ EvUpd \/ EvTable)
 Spec == Init /\ [][Next]_vars
 NotAccepted == l <= Len(Log)
